@@ -31,7 +31,7 @@ void h_finalize(void) {
     memcpy(h.s, s0, 32); memcpy(h.buf, buf0, 64); h.bytes = b0;
     hc.fn_sha256_compression = verif_compress;
     COMPLOG_RESET(); g_c_blocks = b0 / 64; g_cw_blk = wblk; g_cw_off = woff;
-    g_mc_base = (unsigned char *)&h; g_mc_doff = offsetof(secp256k1_sha256, buf) + woff; g_mc_calls = 0;
+    g_mc_big = NULL; g_mc_base = (unsigned char *)&h; g_mc_doff = offsetof(secp256k1_sha256, buf) + woff; g_mc_calls = 0;
 
     secp256k1_sha256_finalize(&hc, &h, out);
 
